@@ -16,7 +16,7 @@ TEXT = ("W1: in the function that recomputes the leaf / winner caches, inserting
         "comparison of the printed identifiers in (self, other) order) and be antisymmetric; partial_cmp = Some(cmp). "
         "W4: every comparison of the number of leaves with a constant uses the single threshold 1, and the conflicting "
         "set is the leaf set filtered by != winner. Does not decide behaviour under identifier hash collisions."
-        " W2 requires the comparison that selects the winner to be Revision's own order (compared type Revision, not a derived tuple / key). W1b: the root-reachability helper answers false only where the chain of ancestors is broken (a lookup miss or a missing parent), never under a bound on the chain length or a set of excluded revisions.")
+        " W2 requires the comparison that selects the winner to be Revision's own order (compared type Revision, not a derived tuple / key). W1b: the root-reachability helper answers false only where the chain of ancestors is broken (a lookup miss or a missing parent), never under a bound on the chain length or a set of excluded revisions. W1c: every map handed to the reachability helper is created empty in the same validation. W1d: the `is a parent` test runs in a set of whole revisions.")
 TRUSTED = ["rustc nightly MIR", "String::cmp is byte-wise lexicographic", "BTreeSet / HashMap semantics"]
 TECHNIQUE = "static analysis: edge dominance over MIR + finite predicate abstraction of the comparator's CFG"
 
@@ -437,12 +437,36 @@ def check_validate(v, facts, res):
             if n == "is_resolved" and l.truth is False and _is_candidate(l.term[2][0]):
                 g_res = True
             if n == "contains" and l.truth is False and _is_candidate(l.term[2][1]) and _parents_set(l.term[2][0], v, facts):
-                g_par = True
+                # ... a set of *revisions*: a set of projections (index and digest, the digest alone) identifies revisions that differ
+                # in their tail - a leaf whose twin on another branch has a successor would count as a parent and vanish
+                ct_ = l.term[4]
+                elem_ = ((ct_.self_ty or "") + " " + ct_.full + " " + " ".join(ct_.args)) if ct_ is not None else ""
+                if "revision::Revision" in elem_ and "(" not in elem_.split("revision::Revision")[0].split("<")[-1]:
+                    g_par = True
+                else:
+                    res.violation("W1", "%s|parent-set-of-projections" % v.path,
+                                  "%s tests `is a parent` in a set whose elements are not whole revisions (%s): two revisions with the same index and "
+                                  "content but different ancestors are taken for one" % (v.path, elem_.strip()[:120]), v.loc(line))
             hb = facts.body(l.term[4].target()) if l.term[4] is not None else None
             if l.truth is True and hb is not None and hb.in_repo() and hb.path != v.path and hb.local_ty(0) == "bool" and \
                     hb.file == v.file and any(_is_candidate(a) for a in l.term[2]) and n not in ("is_resolved", "contains"):
                 if _reach_helper_ok(hb, facts, res):
                     g_valid = True
+                # W1c: what the helper remembers lives for one validation: every map handed to it was created empty in this call. A memo kept
+                # in the tree between validations keeps "not connected" for a revision whose missing ancestor arrives later.
+                for a_ in l.term[2]:
+                    ra_ = a_
+                    hops_ = 0
+                    while hops_ < 12 and ra_[0] in ("ref", "deref", "cast"):
+                        ra_ = ra_[1]
+                        hops_ += 1
+                    if ra_[0] == "var" and ("HashMap<" in (v.local_ty(ra_[1]) or "") or "BTreeMap<" in (v.local_ty(ra_[1]) or "")):
+                        init_ = peel(ra_[3]) if len(ra_) > 3 else ("cut",)
+                        fresh_ = init_[0] == "call" and callee_name(init_) in ("new", "with_capacity", "default", "with_capacity_and_hasher")
+                        if not fresh_:
+                            res.violation("W1", "%s|reachability-memo-outlives-validation" % v.path,
+                                          "%s hands the reachability helper a map (%s) that was not created empty in this validation: an answer remembered "
+                                          "from an earlier validation is not revised when the missing ancestor arrives" % (v.path, v.local_name(ra_[1])), v.loc(line))
         res.instance("W1", "%s in %s: under !is_resolved(candidate)=%s, !parents.contains(candidate)=%s, root-reachable(candidate)=%s" % (
             what, v.path, g_res, g_par, g_valid), v.loc(line))
         if not (g_res and g_par and g_valid):
